@@ -20,6 +20,12 @@ CHECKS = {
         "wrapped for all 7 inflate modes, are decoded by the TLA+ reference decoder (spec/Deflate.tla, Wrappers.tla) and replayed one-shot and streaming under the three decode kernels (base/_01/_04 via the real resolver). TLC validates every recorded call: bytes, FINISH, reported input position = true end, state checksum.",
    note="Trusted: the TLA+ decoder (cross-checked against zlib on the same generator); generator and zlib only produce bytes.",
    technique="TLA+ reference decoder (TLC) judging recorded inflate traces of spec-classified generated streams"),
+ "C05": dict(cat="exploration", ref="DESIGN.md §3 C05",
+   text="Hardware page protection while replaying spec-generated behaviours: every buffer lives in its own mapping inside a sparse PROT_NONE arena; data-plane entry points (all EC, RAID, CRC/Adler, zero-detect variants) run for every len 0..N with first/last byte against an inaccessible page and canaries; "
+        "streaming deflate/inflate run with every input chunk in an exact-size mapping that is unmapped or recycled-and-scribbled the moment it is consumed, the context directly after an inaccessible page and output flush against one, over pending-flush/refill, tiny-output, chunk-size and one-shot schedules. "
+        "spec/Memory.tla states the footprint/lifetime contract and is model-checked (the variant that keeps a pointer into a consumed chunk violates it). All other checks also run under the same guard placements.",
+   note="Detection is by page protection at buffer edges plus canaries: accesses that stay inside other live declared memory are invisible. The TLA+ part is the contract and the schedules, not the detector.",
+   technique="replay of spec-derived behaviours under page protection; footprint/lifetime contract model-checked in TLA+"),
  "C06": dict(cat="exploration", ref="DESIGN.md §3 C06",
    text="Every truncation and every single-bit flip (stride-sampled for wrapped forms in quick) of short parent streams, byte substitutions, grammar-level single faults with their documented error class, wrapper faults and random byte strings are classified by the TLA+ decoder (Valid / Invalid(class) / NeedMore / lenient) "
         "and replayed one-shot and streaming under the three decode kernels with guard pages; TLC requires: success only if the spec accepts, output = spec output, documented codes, <= avail_out written, progress, documented class for injected faults.",
